@@ -2168,6 +2168,16 @@ coap_read_session(coap_context_t *ctx, coap_session_t *session, coap_tick_t now)
       p = packet->payload;
       retry = bytes_read == (ssize_t)packet->length;
       while (bytes_read > 0) {
+        if (session->state == COAP_SESSION_STATE_NONE) {
+          /*
+           * A message of this read (Release, Abort, bad CSM ...) ended the
+           * session: what the peer sent behind it is not handled whichever
+           * way the bytes were split over reads.
+           */
+          bytes_read = 0;
+          retry = 0;
+          break;
+        }
         if (session->partial_pdu) {
           size_t len = session->partial_pdu->used_size
                        + session->partial_pdu->hdr_size
